@@ -91,7 +91,14 @@ pub fn run(ctx: &mut Ctx) {
             ctx.budget_s = b;
             lane_history(ctx);
         }
-        "C05" | "C07" => lane_history(ctx),
+        "C05" | "C07" => {
+            // the statements include "while a block is being ingested in slices"
+            let b = ctx.budget_s;
+            ctx.budget_s = b * 0.3;
+            crate::c08::lane_slice(ctx);
+            ctx.budget_s = b;
+            lane_history(ctx);
+        }
         "C20" => {
             let b = ctx.budget_s;
             ctx.budget_s = b * 0.7;
@@ -194,6 +201,17 @@ fn stratum_cfg(k: u64, rng: &mut Rng, thorough: bool) -> (HistCfg, &'static str)
             cfg.palette = Palette::One;
             "heartbeat_path"
         }
+        5 => {
+            // long chains: more than 100 headers on either side of the stable boundary
+            if cfg.path == Path::Heartbeat {
+                cfg.path = Path::Insert;
+            }
+            cfg.max_txs = 0;
+            cfg.fork_pct = 5;
+            cfg.threshold = *rng.pick(&[2u32, 3, 120, 200]);
+            cfg.palette = Palette::One;
+            "long_chain"
+        }
         _ => "random",
     };
     (cfg, name)
@@ -212,7 +230,11 @@ fn lane_history(ctx: &mut Ctx) {
         ctx.cov.count(&format!("stratum_{}", stratum));
         ctx.cov.count(&format!("net_{}", crate::gen::net_name(cfg.net)));
         ctx.cov.count(&format!("path_{:?}", cfg.path));
-        let steps = rng.range(8, if thorough { 60 } else { 30 });
+        let steps = if stratum == "long_chain" && (ctx.prop == "C07" || ctx.prop == "C02" || thorough) {
+            rng.range(110, 260)
+        } else {
+            rng.range(8, if thorough { 60 } else { 30 })
+        };
         let limit = match rng.below(6) {
             0 => None,
             x => Some([1usize, 2, 3, 7, 5][(x - 1) as usize]),
@@ -223,7 +245,7 @@ fn lane_history(ctx: &mut Ctx) {
             h.fee = Some(crate::fees::FeeTracker::default());
             h.fee_boundary();
         }
-        let upgrade_pct = if ctx.prop == "C15" || ctx.prop == "C20" { 8 } else { 2 };
+        let upgrade_pct = if ctx.prop == "C15" || ctx.prop == "C20" || ctx.prop == "C07" { 8 } else { 2 };
         for _ in 0..steps {
             if !h.step(ctx) {
                 break;
@@ -254,6 +276,10 @@ fn lane_history(ctx: &mut Ctx) {
                 }
                 if ctx.prop == "C20" {
                     mon::check_c20(&mut h, ctx);
+                }
+                if ctx.prop == "C07" {
+                    ctx.cov.count("c07_checks_right_after_an_upgrade");
+                    mon::check_c07(&mut h, ctx, false, 40);
                 }
             }
             if !ctx.time_left() {
